@@ -1,5 +1,7 @@
 """C09 — state point corruption is always detected, never accepted, and repairable (DESIGN §4 C09)."""
 import json
+import zlib
+import re
 import math
 import os
 import shutil
@@ -411,8 +413,15 @@ def run_case(case, ctx):
         before = snapshot_payload(ws)
         listing = os.listdir(ws)  # repair works in listing order; the order is an input of the model
         fresh = signac.Project(path)
+        # the ids to repair may be given explicitly, as any iterable (the same ids in the same order as the default)
+        all_ids = [n for n in listing if re.fullmatch(r"[a-f0-9]{32}", n)]
+        how = zlib.crc32(json.dumps(case, sort_keys=True, default=str).encode()) % 4
+        arg = [None, list(all_ids), (i for i in all_ids), iter(tuple(all_ids))][how]
         try:
-            fresh.repair()
+            if arg is None:
+                fresh.repair()
+            else:
+                fresh.repair(job_ids=arg)
             rep = []
         except JobsCorruptedError as e:
             rep = sorted(e.job_ids)
